@@ -71,6 +71,19 @@ EnumAnnotated(s, top) ==
 \* the rendering of a leaf under the annotations of the field that carries it.  The leaf
 \* annotations are documented for singular and repeated fields of the annotated kind; on a map
 \* field they have no documented meaning and no effect.
+OneofCfgReachable(s, top) == \E n \in Reach(s, {top}, {}) : \E o \in Range(MsgByName(s, n).oneofs) : o.hasCfg
+\* a flattened child that itself flattens (or has a flattened oneof): the document flattens one level only
+NestedFlatten(s, top) ==
+  \E n \in Reach(s, {top}, {}) : \E f \in Range(MsgByName(s, n).fields) :
+     /\ f.ann.flatten /\ HasMsg(s, f.ref)
+     /\ LET C == MsgByName(s, f.ref) IN (\E g \in Range(C.fields) : g.ann.flatten) \/ (\E o \in Range(C.oneofs) : o.hasCfg)
+\* well-known types whose proto3 JSON form is a scalar, not an object
+WktScalarLike == {"google.protobuf.Duration", "google.protobuf.FieldMask", "google.protobuf.StringValue", "google.protobuf.BytesValue",
+                  "google.protobuf.Int32Value", "google.protobuf.Int64Value", "google.protobuf.UInt32Value", "google.protobuf.UInt64Value",
+                  "google.protobuf.FloatValue", "google.protobuf.DoubleValue", "google.protobuf.BoolValue", "google.protobuf.Value",
+                  "google.protobuf.ListValue"}
+WktScalarReachable(s, top) == \E n \in Reach(s, {top}, {}) : \E f \in Range(MsgByName(s, n).fields) : f.kind = "message" /\ f.ref \in WktScalarLike
+
 Leaf(f, x) ==
   CASE f.card = "map" -> (IF f.kind = "enum" THEN x.custom ELSE x.std)
     [] f.ann.int64 = "NUMBER" /\ f.kind \in {"int64", "uint64", "sint64", "fixed64", "sfixed64"} -> x.num
